@@ -143,13 +143,13 @@ func descriptorValidatorsRule(c *core.Check, r *core.Rule, table string) {
 
 // c19DescriptorsReplace (R17): the rule above for the descriptors of @counter-style.
 func c19DescriptorsReplace(c *core.Check) {
-	r := c.Rule("R17", "descriptors of @counter-style replace and are all-or-nothing: no validator of the counterStyleDescriptors table appends to a field of the record it fills, and after a write into the record no return of a non-nil error is reachable (a repeated descriptor replaces the previous one; an invalid one leaves it in place)", 8)
+	r := c.Rule("R17", "descriptors of @counter-style replace and are all-or-nothing: no validator of the counterStyleDescriptors table appends to a field of the record it fills, and after a write into the record no return of a non-nil error is reachable (a repeated descriptor replaces the previous one; an invalid one leaves it in place)", 7)
 	descriptorValidatorsRule(c, r, "counterStyleDescriptors")
 }
 
 // c08FontFaceDescriptors (R23): the same rule for the descriptors of @font-face: an invalid declaration of the block
 // is discarded alone, the others keep the effect they have without it.
 func c08FontFaceDescriptors(c *core.Check) {
-	r := c.Rule("R23", "descriptors of @font-face replace and are all-or-nothing: no validator of the fontFaceDescriptors table appends to a field of the record it fills, and after a write into the record no return of a non-nil error is reachable (an invalid declaration leaves the value of an earlier one in place)", 6)
+	r := c.Rule("R23", "descriptors of @font-face replace and are all-or-nothing: no validator of the fontFaceDescriptors table appends to a field of the record it fills, and after a write into the record no return of a non-nil error is reachable (an invalid declaration leaves the value of an earlier one in place)", 5)
 	descriptorValidatorsRule(c, r, "fontFaceDescriptors")
 }
